@@ -55,7 +55,7 @@ def candidate_configs(model, prior):
     the place and the attribute name (the name of the collection entry when the name is a position)"""
     out = []
     for path, p in model.path_priors_tuples:
-        if p is not prior:
+        if p.id != prior.id:  # (copies of a component hold other objects of equal id: one parameter)
             continue
         owner, name, cls = model, None, ModelInstance
         chain = [model]
